@@ -194,14 +194,16 @@ Theorem c14_session_stays_in_transaction : forall base steps,
 Proof. exact session_stays_in_transaction. Qed.
 Print Assumptions c14_session_stays_in_transaction.
 
-(* ... and once enabled (Open or any Session{PrepareStmt:true}) it stays enabled downstream *)
-Theorem c14_prepared_mode_is_sticky : forall base steps,
+(* ... and once enabled (Open or any Session{PrepareStmt:true}) it stays enabled downstream, unless a
+   Connection block switches to its dedicated connection *)
+Theorem c14_prepared_mode_is_sticky : forall base steps, existsb is_conn steps = false ->
   prepared (pfinal base steps) = base || existsb is_sessprep steps.
 Proof. exact prepared_mode_is_sticky. Qed.
 Print Assumptions c14_prepared_mode_is_sticky.
 
 (* the plumbing model satisfies the specification the checker evaluates on gorm's observations *)
-Theorem c14_plumbing_model_meets_spec : forall p, plumb_model_agrees p = true -> plumb_spec p = true.
+Theorem c14_plumbing_model_meets_spec : forall p, valid_steps false (p_steps p) = true ->
+  plumb_model_agrees p = true -> plumb_spec p = true.
 Proof. exact plumb_model_meets_spec. Qed.
 Print Assumptions c14_plumbing_model_meets_spec.
 
